@@ -59,6 +59,11 @@ pub struct FaultCounters {
     pub pauses: u64,
     pub ticks: u64,
     pub panics: u64,
+    pub xlsx_round_trips: u64,
+    pub xlsx_export_errors: u64,
+    pub xlsx_short_writes: u64,
+    pub xlsx_interrupts: u64,
+    pub corrupt_imports: u64,
 }
 
 pub struct World {
@@ -75,7 +80,18 @@ pub struct World {
     pub redo_kinds: Vec<&'static str>,
 }
 
+pub enum Aux {
+    /// export succeeded and the written bytes imported
+    Imported { model: Box<Model<'static>>, bytes_len: usize, damaged: Option<String> },
+    ExportFailed(String),
+    /// export reported success but what is on the disk does not import
+    ImportFailed { error: String, bytes_len: usize, damaged: Option<String> },
+    /// outcome of importing a damaged package
+    Corrupted { imported: bool, error: Option<String>, non_finite: Vec<String>, reader_faults: u64, bytes_len: usize },
+}
+
 pub struct StepRes {
+    pub aux: Option<Aux>,
     pub result: Result<(), String>,
     pub panic: Option<String>,
     /// set by a Restart: the previous incarnation's last snapshot etc. are
@@ -83,14 +99,30 @@ pub struct StepRes {
     pub restarted: bool,
 }
 
+thread_local! {
+    pub static LAST_PANIC_LOCATION: std::cell::RefCell<String> = const { std::cell::RefCell::new(String::new()) };
+}
+
+/// installs a silent panic hook that remembers where the panic happened
+pub fn install_panic_hook() {
+    std::panic::set_hook(Box::new(|info| {
+        let loc = info.location().map(|l| format!("{}:{}", l.file(), l.line())).unwrap_or_default();
+        let _ = LAST_PANIC_LOCATION.try_with(|c| *c.borrow_mut() = loc);
+    }));
+}
+
 pub fn panic_message(e: Box<dyn std::any::Any + Send>) -> String {
-    if let Some(s) = e.downcast_ref::<&str>() {
+    let msg = if let Some(s) = e.downcast_ref::<&str>() {
         s.to_string()
     } else if let Some(s) = e.downcast_ref::<String>() {
         s.clone()
     } else {
         "<non-string panic>".to_string()
-    }
+    };
+    let loc = LAST_PANIC_LOCATION.try_with(|c| c.borrow().clone()).unwrap_or_default();
+    // paths relative to the repository
+    let loc = loc.rsplit("/repo/").next().unwrap_or(&loc).to_string();
+    format!("{msg} [at {loc}]")
 }
 
 fn apply_layout(model: &mut Model, k: u8) {
@@ -200,14 +232,86 @@ impl World {
             }
             Err(e) => {
                 self.stats.panics += 1;
-                StepRes { result: Err("panic".into()), panic: Some(panic_message(e)), restarted: false }
+                StepRes { aux: None, result: Err("panic".into()), panic: Some(panic_message(e)), restarted: false }
             }
         }
     }
 
     fn step_inner(&mut self, ev: &Ev) -> StepRes {
         let mut restarted = false;
+        let mut aux = None;
         let result = match ev {
+            Ev::XlsxExportImport { plan } => {
+                let disk = crate::xlsxfault::SimDisk::new(plan.clone());
+                match ironcalc::export::save_xlsx_to_writer(self.primary.model(), disk) {
+                    Err(e) => {
+                        self.stats.xlsx_export_errors += 1;
+                        aux = Some(Aux::ExportFailed(format!("{e}")));
+                        Ok(())
+                    }
+                    Ok(disk) => {
+                        self.stats.xlsx_short_writes += disk.stats.short_writes;
+                        self.stats.xlsx_interrupts += disk.stats.interrupts;
+                        let bytes = disk.into_bytes();
+                        // what a fault-free disk would hold: an export that reports success
+                        // after short writes, EINTR and the like must have left exactly this
+                        let damaged = if plan.is_none() {
+                            None
+                        } else {
+                            match export_xlsx(self.primary.model()) {
+                                Err(e) => Some(format!("the fault-free reference export failed: {e}")),
+                                Ok(reference) => damaged_against(&reference, &bytes),
+                            }
+                        };
+                        let locale = self.primary.model().workbook.settings.locale.clone();
+                        let tz = self.primary.model().workbook.settings.tz.clone();
+                        match import_xlsx(&bytes, &locale, &tz, self.primary.lang) {
+                            Ok(m) => aux = Some(Aux::Imported { model: Box::new(m), bytes_len: bytes.len(), damaged }),
+                            Err(e) => aux = Some(Aux::ImportFailed { error: e, bytes_len: bytes.len(), damaged }),
+                        }
+                        self.stats.xlsx_round_trips += 1;
+                        Ok(())
+                    }
+                }
+            }
+            Ev::CorruptImport { fixture, corrupt, read } => {
+                let base: Result<Vec<u8>, String> = match fixture {
+                    Some(name) => std::fs::read(format!("{}/{}", fixtures_dir(), name)).map_err(|e| format!("harness: fixture {name}: {e}")),
+                    None => export_xlsx(self.primary.model()),
+                };
+                match base {
+                    Err(e) => Err(e),
+                    Ok(bytes) => {
+                        let damaged = crate::xlsxfault::corrupt(&bytes, corrupt);
+                        let bytes_len = damaged.len();
+                        self.stats.corrupt_imports += 1;
+                        let mut reader_faults = 0;
+                        let wb = match read {
+                            None => ironcalc::import::load_from_xlsx_bytes(&damaged, "model", "en", "UTC").map_err(|e| format!("{e}")),
+                            Some(plan) => {
+                                let mut r = crate::xlsxfault::FaultyReader::new(damaged, plan.clone());
+                                let res = ironcalc::import::verif_load_xlsx_from_reader(&mut r, "model", "en", "UTC").map_err(|e| format!("{e}"));
+                                reader_faults = r.faults_fired;
+                                res
+                            }
+                        };
+                        let out = match wb {
+                            Err(e) => Aux::Corrupted { imported: false, error: Some(e), non_finite: vec![], reader_faults, bytes_len },
+                            Ok(wb) => match Model::from_workbook(wb, "en") {
+                                Err(e) => Aux::Corrupted { imported: false, error: Some(e), non_finite: vec![], reader_faults, bytes_len },
+                                Ok(mut m) => {
+                                    m.evaluate();
+                                    let node = Node::from_model(m, "en", 999);
+                                    let nf = crate::monitors::non_finite(&node).into_iter().map(|(_, d)| d).collect();
+                                    Aux::Corrupted { imported: true, error: None, non_finite: nf, reader_faults, bytes_len }
+                                }
+                            },
+                        };
+                        aux = Some(out);
+                        Ok(())
+                    }
+                }
+            }
             Ev::Flush => {
                 let (_, _, q) = self.primary.lens();
                 let bytes = self.primary.um.flush_send_queue();
@@ -321,12 +425,75 @@ impl World {
                 r
             }
         };
-        StepRes { result, panic: None, restarted }
+        StepRes { aux, result, panic: None, restarted }
     }
 
     pub fn quiescent(&self) -> bool {
         self.primary.lens().2 == 0 && self.followers.iter().all(|f| f.inbox.is_empty())
     }
+}
+
+pub fn fixtures_dir() -> String {
+    std::env::var("VERIF_FIXTURES").unwrap_or_else(|_| "/repo/xlsx/tests".to_string())
+}
+
+/// fixture packages (relative paths), sorted; small ones only
+pub fn fixtures() -> Vec<String> {
+    fn walk(dir: &std::path::Path, base: &std::path::Path, out: &mut Vec<String>) {
+        if let Ok(rd) = std::fs::read_dir(dir) {
+            let mut entries: Vec<_> = rd.flatten().collect();
+            entries.sort_by_key(|e| e.path());
+            for e in entries {
+                let p = e.path();
+                if p.is_dir() {
+                    walk(&p, base, out);
+                } else if p.extension().map(|x| x == "xlsx").unwrap_or(false) {
+                    if e.metadata().map(|m| m.len() < 60_000).unwrap_or(false) {
+                        if let Ok(rel) = p.strip_prefix(base) {
+                            out.push(rel.to_string_lossy().to_string());
+                        }
+                    }
+                }
+            }
+        }
+    }
+    let base = fixtures_dir();
+    let mut out = Vec::new();
+    walk(std::path::Path::new(&base), std::path::Path::new(&base), &mut out);
+    out
+}
+
+/// Compares what a faulted export left on the disk with the fault-free export, modulo
+/// the one field the zip writer fills from the real clock (entry modification time):
+/// same length, and the same entries in the same order with the same contents.
+pub fn damaged_against(reference: &[u8], disk: &[u8]) -> Option<String> {
+    if reference == disk {
+        return None;
+    }
+    if reference.len() != disk.len() {
+        return Some(format!("{} bytes on disk, {} bytes in the fault-free export", disk.len(), reference.len()));
+    }
+    let a = match crate::xlsxfault::read_entries(reference) {
+        Ok(a) => a,
+        Err(e) => return Some(format!("harness: the fault-free export is not a readable archive: {e}")),
+    };
+    let b = match crate::xlsxfault::read_entries(disk) {
+        Ok(b) => b,
+        Err(e) => return Some(format!("what is on the disk is not a readable archive: {e}")),
+    };
+    if a.len() != b.len() {
+        return Some(format!("{} entries on disk, {} in the fault-free export", b.len(), a.len()));
+    }
+    for ((na, da), (nb, db)) in a.iter().zip(b.iter()) {
+        if na != nb {
+            return Some(format!("entry {nb} on disk where the fault-free export has {na}"));
+        }
+        if da != db {
+            let at = da.iter().zip(db.iter()).position(|(x, y)| x != y).unwrap_or(da.len().min(db.len()));
+            return Some(format!("entry {na}: contents differ from the fault-free export at offset {at}"));
+        }
+    }
+    None
 }
 
 pub fn export_xlsx(model: &Model) -> Result<Vec<u8>, String> {
